@@ -1,0 +1,59 @@
+//! Verification hooks (cargo feature `verif_hooks`, off by default).
+//!
+//! Counters and an optional per-thread callback, used by the external
+//! model-checking harness in /verif. They change no control flow of the
+//! library: `step()` increments a thread-local counter, panics with a
+//! recognisable message once a harness-set ceiling is exceeded (a
+//! deterministic non-termination detector), and invokes the callback the
+//! harness may have installed on this thread (used as a scheduling point).
+
+use std::cell::{Cell, RefCell};
+
+thread_local! {
+    static STEPS: Cell<u64> = const { Cell::new(0) };
+    static CEILING: Cell<u64> = const { Cell::new(u64::MAX) };
+    static CALLBACK: RefCell<Option<Box<dyn FnMut(&'static str)>>> = const { RefCell::new(None) };
+}
+
+pub const CEILING_MESSAGE: &str = "verif_hooks: step ceiling exceeded";
+
+/// One elementary step of kind `kind` (a label or pointer followed, a record
+/// or option visited, a name emitted, ...).
+#[inline]
+pub fn step(kind: &'static str) {
+    let n = STEPS.with(|s| {
+        let n = s.get() + 1;
+        s.set(n);
+        n
+    });
+    if n > CEILING.with(|c| c.get()) {
+        panic!("{}", CEILING_MESSAGE);
+    }
+    CALLBACK.with(|cb| {
+        if let Ok(mut cb) = cb.try_borrow_mut() {
+            if let Some(cb) = cb.as_mut() {
+                cb(kind)
+            }
+        }
+    });
+}
+
+/// Number of steps taken on this thread since the last `reset()`.
+pub fn steps() -> u64 {
+    STEPS.with(|s| s.get())
+}
+
+/// Clears this thread's step counter.
+pub fn reset() {
+    STEPS.with(|s| s.set(0));
+}
+
+/// Sets the number of steps after which `step()` panics on this thread.
+pub fn set_ceiling(ceiling: u64) {
+    CEILING.with(|c| c.set(ceiling));
+}
+
+/// Installs (or removes) this thread's step callback.
+pub fn set_callback(callback: Option<Box<dyn FnMut(&'static str)>>) {
+    CALLBACK.with(|cb| *cb.borrow_mut() = callback);
+}
